@@ -5,7 +5,7 @@ from .. import cv, gen, lib, ref
 from ..lib import call
 
 PROP = "C11"
-PLAN = {"quick": (1000, 400), "thorough": (12000, 3600)}
+PLAN = {"quick": (1000, 400), "thorough": (72000, 3600)}
 RULE = ("case = (source polynomial curve C, target knot vector S on the same interval, optional interpolation nodes); "
         "classes: C in S (S is a refinement / elevation of C's space built by the reference model) and generic pairs with "
         "degrees 0..3, non uniform spans, different interval lengths, scalar / vector points, node sets of every admissible "
